@@ -97,7 +97,7 @@ var condExprs = []string{
 	"m[\"k\"] == 'v'", "!(a || b) ? c : d", "x > 1.5e3 && y <= 0x1F", "s.startsWith(\"a b\")",
 	"a ==\n    b", "size(l) >= 1u", "-x * (y / z) - 1", "true || false || null == x",
 	"b\"bytes\" == y", "r'raw' == y", "x == 1",
-	"", " ", "name != \"a\\\"b\"", "s == 'it\\'s'", "x == \"5\\\"\" || y == \"\\\\\"",
+	"", " ", "a ==\n\n    b", "tag == \"release#42\" || c == '#'", "name != \"a\\\"b\"", "s == 'it\\'s'", "x == \"5\\\"\" || y == \"\\\\\"",
 }
 
 func (g *DSLGen) Doc(modular bool) *Doc {
